@@ -109,8 +109,38 @@ fn history<C: Col + ColorMapping>(ctx: &mut Ctx, rng: &mut Rng, palette: &[C]) {
     let pick = |rng: &mut Rng| *rng.pick(palette);
     for _ in 0..n_ops {
         // build the op as an ordered pixel list (what the documented semantics deliver) and a closure
-        let kind = rng.below(7);
+        // one operation in nine hands the display more items than it has cells in a single call
+        // (an area larger than the display that only partly overlaps it, or every cell once followed
+        // by a short tail); they come first more often, while the display is still untouched
+        let kind = if trace.is_empty() && rng.chance(1, 6) { 7 + rng.below(2) } else { rng.below(9) };
         let (px, label, real_op): (Vec<(i32, i32, C)>, String, Real<C>) = match kind {
+            7 => {
+                let a = rect(rng.i32r(-130, 40), rng.i32r(-130, 40), rng.u32r(60, 170), rng.u32r(60, 170));
+                let c = pick(rng);
+                let list: Vec<(i32, i32, C)> = area_list(&a).into_iter().map(|p| (p.0, p.1, c)).collect();
+                match rng.below(3) {
+                    0 => (list, format!("fill_solid({:?}, {:#x})", egmon::target::rt(&a), c.to_u32()), Real::FillSolid(a, c)),
+                    1 => {
+                        let n = list.len();
+                        (list, format!("fill_contiguous({:?}, {} colours {:#x})", egmon::target::rt(&a), n, c.to_u32()), Real::FillContiguous(a, vec![c; n]))
+                    }
+                    _ => (list, format!("draw_iter(row-major points of {:?}, {:#x})", egmon::target::rt(&a), c.to_u32()), Real::DrawIter),
+                }
+            }
+            8 => {
+                let c = pick(rng);
+                let mut list: Vec<(i32, i32, C)> = area_list(&rect(0, 0, 64, 64)).into_iter().map(|p| (p.0, p.1, c)).collect();
+                let order = rng.below(3);
+                match order {
+                    0 => {}
+                    1 => list.reverse(),
+                    _ => rng.shuffle(&mut list),
+                }
+                let tail: Vec<(i32, i32, C)> = (0..rng.usizer(0, 3)).map(|_| { let p = rand_point(rng, &hot); (p.0, p.1, pick(rng)) }).collect();
+                let l = format!("draw_iter(all 4096 cells {} {:#x}, then {:?})", ["row-major", "reversed", "shuffled"][order as usize], c.to_u32(), tail.iter().map(|p| (p.0, p.1, p.2.to_u32())).collect::<Vec<_>>());
+                list.extend(tail);
+                (list, l, Real::DrawIter)
+            }
             0 | 1 => {
                 let k = rng.usizer(0, 10);
                 let mut v: Vec<(i32, i32, C)> = Vec::new();
